@@ -134,6 +134,8 @@ func runCmd(args []string) int {
 	casesFile := fs.String("cases", "", "JSON file with an array of cases to run instead of generating")
 	corpus := fs.String("corpus", "", "corpus dir (JSON case files, run first)")
 	shard := fs.Int("shard", 500, "cases per cases_K.v file")
+	rng := fs.String("range", "", "a:b — run only generated cases with index in [a,b) (crash isolation)")
+	genOnly := fs.Bool("genonly", false, "write cases.json (cases only) without running them")
 	_ = fs.Parse(args)
 	p, ok := props[*prop]
 	if !ok {
@@ -185,9 +187,20 @@ func runCmd(args []string) int {
 			}
 		}
 		base := NewRng(*seed)
-		for i := 0; i < *n; i++ {
+		lo, hi := 0, *n
+		if *rng != "" {
+			fmt.Sscanf(*rng, "%d:%d", &lo, &hi)
+			recs = nil // no corpus when isolating
+		}
+		for i := lo; i < hi && i < *n; i++ {
 			recs = append(recs, caseRec{Case: p.Gen(base.Fork(uint64(i)), i, *tier), Src: "gen"})
 		}
+	}
+	if *genOnly {
+		_ = os.MkdirAll(*out, 0o755)
+		cj, _ := json.Marshal(recs)
+		_ = ioutil.WriteFile(filepath.Join(*out, "cases.json"), cj, 0o644)
+		return 0
 	}
 	par := 8
 	if pp, ok := p.(Paralleler); ok {
